@@ -78,6 +78,14 @@ class Built:
             artifact_store=st['store_cls'] if store else None,
         )
 
+    def fresh(self, events=True, store=False):
+        """Rebuild DAG + chart from the same materialised classes (no state shared with earlier runs)."""
+        st = setup_engine()
+        self.dag = st['build_dag'](input_node=getattr(self.mod, self.prog['input']),
+                                   output_node=getattr(self.mod, self.prog['output']))
+        self.chart = self.make_chart(events, store)
+        return self
+
     def close(self):
         materialize.unload(self.mod)
 
@@ -145,6 +153,8 @@ def execute(built, runs, ctl, gate_events=0.0, gate_saves=0.0, write_once=True,
         try:
             res = await chart.run(pipeline_id=ro.tag, input_kwargs=kw)
         except BaseException as e:  # noqa: BLE001
+            if sess.frozen:
+                raise
             ro.outcome = 'raised'
             ro.raised = e
             sess.objs.append(e)
